@@ -86,7 +86,10 @@ def c05(tier, seed):
     c = Check("C05", tier, seed)
     c.rule = "MC: should_notify as coded vs vring_need_event for every (avail_idx, avail_event, last-checked) modulo 8, both flag values; negative configuration (non-wrap-aware compare) must yield a counterexample; traces: should_notify / set_dev_notify / used_event observed in random histories"
     c.assumptions = VQ_ASSUME
-    mc(c, ["VQ_n2_notify_flag", "VQ_n2_notify_ev"], tier, negative=["VQ_bug_naive_event_compare", "VQ_bug_no_rearm"])
+    if tier == "thorough":
+        mc(c, ["VQ_n2_notify_flag", "VQ_n2_notify_ev4", "VQ_n2_notify_ev"], tier, negative=["VQ_bug_naive_event_compare", "VQ_bug_no_rearm"])
+    else:
+        mc(c, ["VQ_n2_notify_flag", "VQ_n2_notify_ev4"], tier, negative=["VQ_bug_naive_event_compare4", "VQ_bug_no_rearm"])
     vq_family(c, tier, seed + 404, ["notify", "random"])
     return c.finish()
 
@@ -150,7 +153,60 @@ def c09(tier, seed):
     return c.finish()
 
 
-PROPS = {"C06": c06, "C08": c08, "C09": c09, "C01": c01, "C02": c02, "C03": c03, "C04": c04, "C05": c05}
+def c10(tier, seed):
+    c = Check("C10", tier, seed)
+    c.rule = "every operation of the Transport interface on the real MmioTransport (directly and through SomeTransport), legacy and modern register-level device, arguments from boundary grids (queue 0/1/2/65535, sizes 2^k, 64-bit address triples from 16-bit limb patterns, feature words, status values, interrupt status 0..3), config windows 0..256 bytes; probe grid: magic x version x device id x region size; each operation's access sequence is matched against the pattern Mmio.tla prescribes; register logs of all MMIO-backed driver lives validated against the global rules; distinct = operations executed"
+    c.assumptions = ["the register-level device model (harness/src/mmio.rs) is our reading of Virtio 1.2 4.2.2/4.2.4", "safe-mmio custom-mmio dispatch reports every access with its width"]
+    out = os.path.join(WORK, c.pid, "mmio.ndjson")
+    idx = run_harness("mmio", out, seed, tier)
+    v = validate_traces("MmioTrace", "MmioTrace.cfg", out, idx, max_events=1500)
+    c.add_validation(v, "mmio")
+    c.samples.append({"family": "mmio", "scenario": idx["scenarios"][0], "summary": idx["summaries"][0]})
+    c.samples.append({"family": "mmio", "scenario": idx["scenarios"][-1], "summary": idx["summaries"][-1]})
+    nops = 0
+    with open(out) as f:
+        for ln in f:
+            if '"e":"Op"' in ln or '"e":"Probe"' in ln:
+                nops += 1
+    c.evaluations = nops
+    c.distinct = nops
+    c.states = max(c.states, v["states"])
+    # register logs of driver lives on the real MMIO transports
+    out2 = os.path.join(WORK, c.pid, "life.ndjson")
+    idx2 = run_harness("life", out2, seed, tier)
+    v2 = validate_traces("MmioTrace", "MmioTrace.cfg", out2 + ".m.ndjson", idx2, max_events=3000)
+    c.add_validation(v2, "life/mmio-registers")
+    c.states += v2["states"]
+    if not c.violations:
+        for f in (out, out2, out2 + ".q.ndjson", out2 + ".m.ndjson"):
+            if os.path.exists(f):
+                os.remove(f)
+    return c.finish()
+
+
+def c13(tier, seed):
+    c = Check("C13", tier, seed)
+    c.rule = "MC: read_consistent as coded vs a device updating between any two accesses (3 fields, <=3 updates, liveness under fairness), negative configuration (single pass) must yield a torn value; traces: (a) bounds grid offset x width x window size on the real MMIO transport (mmio family, read_config/write_config operations), (b) every placement of <=2 (thorough: 3) device updates among the first 10 (16) accesses of each multi-field reader (blk capacity, socket CID, console size, MAC, 9p tag) on the model transport and the real modern MMIO transport"
+    c.assumptions = ["legacy MMIO devices have no generation register: torn reads cannot be excluded there and are outside the property", "snapshot ids are carried by every byte the reader looks at"]
+    c.add_mc(run_tlc_mc("ConfigMC", "Config_ok.cfg", workers=2, timeout=300))
+    c.add_mc(run_tlc_mc("ConfigMC", "Config_bug_single_pass.cfg", workers=2, timeout=300), expect_violation=True)
+    out = os.path.join(WORK, c.pid, "cfg.ndjson")
+    idx = run_harness("cfg", out, seed, tier)
+    v = validate_traces("ConfigTrace", "ConfigTrace.cfg", out, idx, max_events=1500)
+    c.add_validation(v, "cfg")
+    c.samples.append({"family": "cfg", "scenario": idx["scenarios"][17], "summary": idx["summaries"][17]})
+    out2 = os.path.join(WORK, c.pid, "mmio.ndjson")
+    idx2 = run_harness("mmio", out2, seed, tier)
+    v2 = validate_traces("MmioTrace", "MmioTrace.cfg", out2, idx2, max_events=1500)
+    c.add_validation(v2, "mmio/config-bounds")
+    c.samples.append({"family": "mmio", "scenario": idx2["scenarios"][3], "summary": idx2["summaries"][3]})
+    if not c.violations:
+        os.remove(out)
+        os.remove(out2)
+    return c.finish()
+
+
+PROPS = {"C10": c10, "C13": c13, "C06": c06, "C08": c08, "C09": c09, "C01": c01, "C02": c02, "C03": c03, "C04": c04, "C05": c05}
 
 
 def main():
